@@ -31,6 +31,8 @@ type c10Op struct {
 	Beside     string        // for *-during writes: "" | ping | peer-ping: a control frame queued behind the blocked write
 	Chunks     []int         // write ops: non-empty = streamed through Writer with these chunk sizes
 	K          int           // header-buffered: bytes of the next frame's header that arrive together with the message in front of it
+	PeerPing   bool          // reads that succeed: the peer sends a Ping in front of the message...
+	PongStall  time.Duration // ...and takes no bytes (so that the Pong cannot leave) for this long
 }
 
 type c10Case struct {
@@ -53,6 +55,10 @@ func genC10(rt *rapid.T) c10Case {
 		o.Compressed = rapid.Bool().Draw(rt, "compressed")
 		o.PongDelay = rapid.SampledFrom([]time.Duration{0, time.Millisecond, 2 * time.Second}).Draw(rt, "pongDelay")
 		o.Pause = rapid.SampledFrom([]time.Duration{0, 0, time.Millisecond, 2 * time.Second}).Draw(rt, "pause")
+		if o.Kind == "read" && rapid.IntRange(0, 3).Draw(rt, "peerPing") == 0 {
+			o.PeerPing = true
+			o.PongStall = rapid.SampledFrom([]time.Duration{0, 300 * time.Millisecond, 2 * time.Second}).Draw(rt, "pongStall")
+		}
 		if o.Kind == "write" && rapid.Bool().Draw(rt, "streamed") {
 			for k := rapid.IntRange(1, 3).Draw(rt, "nChunks"); k > 0; k-- {
 				o.Chunks = append(o.Chunks, rapid.SampledFrom([]int{1, 100, 4080, 4088, 4089, 4090, 4092, 4093, 4094, 4095, 4096, 4097, 9000}).Draw(rt, "chunk"))
@@ -71,7 +77,7 @@ func genC10(rt *rapid.T) c10Case {
 			}
 		} else if i == n-1 && during {
 			o.Ctx = rapid.SampledFrom([]string{"cancel-during", "deadline-during"}).Draw(rt, "ctxDuring")
-			o.Block = rapid.SampledFrom([]string{"nothing", "first-fragment", "partial-payload", "partial-header", "pong-blocked", "header-buffered", "header-buffered"}).Draw(rt, "block")
+			o.Block = rapid.SampledFrom([]string{"nothing", "first-fragment", "partial-payload", "partial-header", "pong-blocked", "header-buffered", "header-buffered", "pong-behind-stuck-ping"}).Draw(rt, "block")
 			if o.Block == "header-buffered" {
 				// a complete small message and the first K bytes of the next frame's header arrive in
 				// one piece: the small message is read first, then the call under test blocks in the
@@ -430,6 +436,18 @@ func runC10(t fataler, c c10Case) (string, c10Result) {
 				// the peer sends a Ping but accepts no bytes: the library blocks writing the Pong from inside Read
 				lc.End.SetInBudget(0)
 				p.send(ref.Frame{Fin: true, Opcode: ref.OpPing, Payload: expand(ckText, 3, 100)})
+			} else if during && o.Block == "pong-behind-stuck-ping" {
+				// a Ping of another goroutine is stuck in the transport (the peer takes no bytes);
+				// the peer sends a Pong nobody asked for (legal), which the read under test takes
+				// in on its way - and then nothing more
+				lc.End.SetInBudget(0)
+				e.Go(func() {
+					pctx, pcancel := context.WithTimeout(base, 30*time.Second)
+					defer pcancel()
+					conn.Ping(pctx)
+				})
+				synctest.Wait()
+				p.send(ref.Frame{Fin: true, Opcode: ref.OpPong, Payload: []byte("nobody asked")})
 			} else if during && o.Block == "header-buffered" {
 				oo := o
 				oo.Frags, oo.CtlInside = 1, false
@@ -443,6 +461,19 @@ func runC10(t fataler, c c10Case) (string, c10Result) {
 			} else if during {
 				sendMsg(o, payload, o.Block)
 			} else {
+				if o.PeerPing {
+					// the Pong has to wait until the peer takes bytes again; the message behind the
+					// Ping is delivered once it is out. Whatever the library still does for this
+					// read afterwards is no longer covered by the read's context
+					if st := o.PongStall; st > 0 {
+						lc.End.SetInBudget(0)
+						e.Go(func() {
+							e.sleep(st)
+							lc.End.SetInBudget(-1)
+						})
+					}
+					p.send(ref.Frame{Fin: true, Opcode: ref.OpPing, Payload: []byte(fmt.Sprintf("ping in front of message %d", i))})
+				}
 				sendMsg(o, payload, "all")
 			}
 			if !during && (i+o.Frags)%2 == 0 {
@@ -559,6 +590,17 @@ func runC10(t fataler, c c10Case) (string, c10Result) {
 			var rerr error
 			var rgot []byte
 			rdone := e.Call(func() { _, rgot, rerr = conn.Read(rctx) })
+			if during && o.Beside == "stuck-ping-first" {
+				// a Ping of another goroutine is stuck in the transport; the Ping under test
+				// queues behind it and must still give up when its own context ends
+				lc.End.SetInBudget(0)
+				e.Go(func() {
+					pctx, pcancel := context.WithTimeout(base, 30*time.Second)
+					defer pcancel()
+					conn.Ping(pctx)
+				})
+				synctest.Wait()
+			}
 			done = e.Call(func() { opErr = conn.Ping(ctx) })
 			if !during {
 				if !within(done, 30*time.Second) || opErr != nil {
@@ -684,7 +726,7 @@ func runC10(t fataler, c c10Case) (string, c10Result) {
 
 func TestC10(t *testing.T) {
 	rec := evid.For("C10")
-	rec.Rule = "rapid-generated programs of 3-10 operations {read of a message with 1-4 fragments, optional interleaved control frames, optional compression; write of 0..70000 bytes; Ping with the Pong delayed 0/1ms/2s and a reader running beside it; a Write whose deadline (1ms/100ms/3s) expires while it WAITS for another goroutine's open Writer message, followed by a third Write with a live context that must keep waiting, with the frames on the wire checked}, each with its OWN context: already cancelled before the call (last op only; afterwards Write and Read probes with live contexts must return at once), cancelled 0/1ms/1s/1h after the call returned, or a deadline of 5s/1h that expires later, or (last op only) cancelled / expiring DURING the call while synctest.Wait() confirms it is blocked in a header read, payload read, between fragments, a frame write against a zero window, or waiting for a withheld Pong; pauses between ops let timers fire; both roles, with and without compression, in virtual time. Non-trivial: >=1 context ended after a successful multi-frame / control-interleaved / ping operation that is followed by a further operation. distinct = hash(mode, op shapes, context kinds and delays)."
+	rec.Rule = "rapid-generated programs of 3-10 operations {read of a message with 1-4 fragments, optional interleaved control frames, optional compression, in a quarter of the reads a Ping from the peer in front of the message while the peer takes no bytes for 0/300ms/2s so that the Pong leaves late; write of 0..70000 bytes; Ping with the Pong delayed 0/1ms/2s and a reader running beside it; a Write whose deadline (1ms/100ms/3s) expires while it WAITS for another goroutine's open Writer message, followed by a third Write with a live context that must keep waiting, with the frames on the wire checked}, each with its OWN context: already cancelled before the call (last op only; afterwards Write and Read probes with live contexts must return at once), cancelled 0/1ms/1s/1h after the call returned, or a deadline of 5s/1h that expires later, or (last op only) cancelled / expiring DURING the call while synctest.Wait() confirms it is blocked in a header read, payload read, between fragments, a frame write against a zero window, waiting for a withheld Pong, a read that took in an unsolicited Pong while another goroutine's Ping is stuck in the transport, or a Ping queued behind such a stuck Ping; pauses between ops let timers fire; both roles, with and without compression, in virtual time. Non-trivial: >=1 context ended after a successful multi-frame / control-interleaved / ping operation that is followed by a further operation. distinct = hash(mode, op shapes, context kinds and delays)."
 	rapid.Check(t, func(rt *rapid.T) {
 		c := genC10(rt)
 		var msg string
